@@ -716,7 +716,7 @@ func (r *RigS) build() {
 		},
 		Retry:       config.RetrySettings{RetryTimes: sc.Knobs.RetryTimes, InitBackOff: 1, MaxBackOff: 1},
 		ReplicateID: "cdc-sim",
-		Packer:      msgpacker.PackerConfig{TimerInterval: sc.Knobs.PackTimerMs, MaxCount: sc.Knobs.PackCount},
+		Packer:      msgpacker.PackerConfig{TimerInterval: sc.Knobs.PackTimerMs, MaxCount: sc.Knobs.PackCount, MemoryLimit: sc.Knobs.PackMemKB},
 	}
 	r.cdc = server.NewMetaCDCForVerif(cfg, r.fac, &simFactoryCreator{mq: r.mq, connErr: r.mqConnErr})
 	r.handler = server.NewCDCHandlerForVerif(r.cdc, cfg)
